@@ -707,8 +707,8 @@ EncodeStereoEscape (ALAC_ENCODER *p, struct BitBuffer * bitstream, const int32_t
 		case 20:
 			for (indx = 0 ; indx < (numSamples * stride) ; indx += stride)
 			{
-				BitBufferWrite (bitstream, inputBuffer [indx + 0] >> 12, 16) ;
-				BitBufferWrite (bitstream, inputBuffer [indx + 1] >> 12, 16) ;
+				BitBufferWrite (bitstream, inputBuffer [indx + 0] >> 12, 20) ;
+				BitBufferWrite (bitstream, inputBuffer [indx + 1] >> 12, 20) ;
 			}
 			break ;
 		case 24:
